@@ -13,7 +13,16 @@ val length : 'a1 list -> nat
 
 val app : 'a1 list -> 'a1 list -> 'a1 list
 
+type comparison =
+| Eq
+| Lt
+| Gt
+
+val compOpp : comparison -> comparison
+
 val add : nat -> nat -> nat
+
+val mul : nat -> nat -> nat
 
 val sub : nat -> nat -> nat
 
@@ -26,7 +35,13 @@ module Nat :
   val ltb : nat -> nat -> bool
  end
 
+val tl : 'a1 list -> 'a1 list
+
 val nth : nat -> 'a1 list -> 'a1 -> 'a1
+
+val nth_error : 'a1 list -> nat -> 'a1 option
+
+val last : 'a1 list -> 'a1 -> 'a1
 
 val removelast : 'a1 list -> 'a1 list
 
@@ -34,9 +49,19 @@ val rev : 'a1 list -> 'a1 list
 
 val map : ('a1 -> 'a2) -> 'a1 list -> 'a2 list
 
+val fold_right : ('a2 -> 'a1 -> 'a1) -> 'a1 -> 'a2 list -> 'a1
+
+val existsb : ('a1 -> bool) -> 'a1 list -> bool
+
+val forallb : ('a1 -> bool) -> 'a1 list -> bool
+
 val filter : ('a1 -> bool) -> 'a1 list -> 'a1 list
 
+val firstn : nat -> 'a1 list -> 'a1 list
+
 val skipn : nat -> 'a1 list -> 'a1 list
+
+val repeat : 'a1 -> nat -> 'a1 list
 
 type positive =
 | XI of positive
@@ -50,18 +75,66 @@ type z =
 
 module Pos :
  sig
+  val succ : positive -> positive
+
+  val add : positive -> positive -> positive
+
+  val add_carry : positive -> positive -> positive
+
+  val pred_double : positive -> positive
+
+  val mul : positive -> positive -> positive
+
+  val compare_cont : comparison -> positive -> positive -> comparison
+
+  val compare : positive -> positive -> comparison
+
   val eqb : positive -> positive -> bool
 
   val iter_op : ('a1 -> 'a1 -> 'a1) -> positive -> 'a1 -> 'a1
 
   val to_nat : positive -> nat
+
+  val of_succ_nat : nat -> positive
  end
 
 module Z :
  sig
+  val double : z -> z
+
+  val succ_double : z -> z
+
+  val pred_double : z -> z
+
+  val pos_sub : positive -> positive -> z
+
+  val add : z -> z -> z
+
+  val opp : z -> z
+
+  val sub : z -> z -> z
+
+  val mul : z -> z -> z
+
+  val compare : z -> z -> comparison
+
+  val leb : z -> z -> bool
+
+  val ltb : z -> z -> bool
+
   val eqb : z -> z -> bool
 
+  val max : z -> z -> z
+
   val to_nat : z -> nat
+
+  val of_nat : nat -> z
+
+  val pos_div_eucl : positive -> z -> z * z
+
+  val div_eucl : z -> z -> z * z
+
+  val div : z -> z -> z
  end
 
 type err =
@@ -94,6 +167,8 @@ type val0 =
 | VI of z
 | VL of val0 list
 
+val vnat : nat -> val0
+
 val vstr : str -> val0
 
 val vstrs : str list -> val0
@@ -113,6 +188,280 @@ val as_str : val0 -> str
 val as_strs : val0 -> str list
 
 val arg : val0 -> nat -> val0
+
+type char_ops = { co_lower : (z -> z); co_class : (z -> z);
+                  co_norm : (z -> z); co_space : (z -> bool) }
+
+val cWhite : z
+
+val cNonWord : z
+
+val cDelim : z
+
+val cLower : z
+
+val cUpper : z
+
+val cNumber : z
+
+type scheme = { s_bw : z; s_bd : z; s_delims : z list; s_init : z }
+
+val scheme_default : scheme
+
+val scheme_path : scheme
+
+val scheme_history : scheme
+
+val scoreMatch : z
+
+val scoreGapStart : z
+
+val scoreGapExt : z
+
+val bonusBoundary : z
+
+val bonusNonWord : z
+
+val bonusCamel : z
+
+val bonusConsecutive : z
+
+val mem : z -> z list -> bool
+
+val ascii_white : z -> bool
+
+val ascii_class : scheme -> z -> z
+
+val class_of : char_ops -> scheme -> z -> z
+
+val is_space : char_ops -> z -> bool
+
+val bonus_for : scheme -> z -> z -> z
+
+val lower1 : char_ops -> z -> z
+
+val fold : char_ops -> bool -> bool -> z -> z
+
+val witness_from :
+  char_ops -> bool -> bool -> z list -> nat -> z list -> nat list -> bool
+
+val witness : char_ops -> bool -> bool -> z list -> z list -> nat list -> bool
+
+val subseq_b : char_ops -> bool -> bool -> z list -> z list -> bool
+
+val prefix_b : char_ops -> bool -> bool -> z list -> z list -> bool
+
+val occurs_at : char_ops -> bool -> bool -> z list -> z list -> nat -> bool
+
+val edge_class : char_ops -> scheme -> z -> bool
+
+val left_ok : char_ops -> scheme -> z list -> nat -> bool
+
+val right_ok : char_ops -> scheme -> z list -> nat -> bool
+
+val boundary_at :
+  char_ops -> scheme -> bool -> bool -> z list -> z list -> nat -> bool
+
+val count_while : (z -> bool) -> z list -> nat
+
+val lead_ws : char_ops -> z list -> nat
+
+val trail_ws : char_ops -> z list -> nat
+
+val exists_upto : (nat -> bool) -> nat -> bool
+
+val substr_b : char_ops -> bool -> bool -> z list -> z list -> bool
+
+val boundary_substr_b :
+  char_ops -> scheme -> bool -> bool -> z list -> z list -> bool
+
+val head_space : char_ops -> z list -> bool
+
+val last_space : char_ops -> z list -> bool
+
+val prefix_spec : char_ops -> bool -> bool -> z list -> z list -> nat option
+
+val suffix_spec : char_ops -> bool -> bool -> z list -> z list -> nat option
+
+val equal_spec : char_ops -> bool -> bool -> z list -> z list -> nat option
+
+val class_before : char_ops -> scheme -> z list -> nat -> z
+
+val bonus_at : char_ops -> scheme -> z list -> nat -> z
+
+val align_walk :
+  char_ops -> scheme -> z list -> nat -> nat -> nat list -> bool -> bool ->
+  nat -> z -> z -> z
+
+val align_score : char_ops -> scheme -> z list -> nat list -> z
+
+type cell = { c_h : z option; c_cons : z; c_gap : bool }
+
+val opt_add : z option -> z -> z option
+
+val dp_row0 :
+  char_ops -> scheme -> bool -> bool -> z list -> z -> nat -> z list -> z
+  option -> bool -> cell list
+
+val none_cell : cell
+
+val dp_row :
+  char_ops -> scheme -> bool -> bool -> z list -> z -> nat -> z list -> cell
+  list -> cell -> cell -> cell list
+
+val dp_rows :
+  char_ops -> scheme -> bool -> bool -> z list -> z list -> cell list -> cell
+  list
+
+val naive_last_row :
+  char_ops -> scheme -> bool -> bool -> z list -> z list -> cell list
+
+val best_cell :
+  bool -> cell list -> nat -> (z * nat) option -> (z * nat) option
+
+val naive_dp :
+  char_ops -> scheme -> bool -> bool -> bool -> z list -> z list -> (z * nat)
+  option
+
+val equal_score : scheme -> nat -> z
+
+type mres =
+| NoMatch
+| Match of nat * nat * z * nat list option
+
+val bonus_m : scheme -> z -> z -> z
+
+val foldm : char_ops -> bool -> bool -> z -> z
+
+val bonus_at_m : char_ops -> scheme -> z list -> nat -> z res
+
+val index_byte : z list -> z -> nat option
+
+val try_skip : z list -> bool -> z -> nat -> nat option res
+
+val is_ascii : z list -> bool
+
+val afi_loop :
+  z list -> bool -> z list -> bool -> nat -> nat -> nat -> z ->
+  ((nat * nat) * z) option res
+
+val last_occ : z list -> z -> z -> nat -> nat option -> nat option
+
+val ascii_fuzzy_index :
+  bool -> z list -> z list -> bool -> (nat * nat) option res
+
+val calc_loop :
+  char_ops -> scheme -> bool -> bool -> z list -> nat -> z list -> z -> z ->
+  bool -> nat -> z -> bool -> nat list -> (z * nat list) res
+
+val calculate_score :
+  char_ops -> scheme -> bool -> bool -> z list -> z list -> nat -> nat ->
+  (z * nat list) res
+
+val v1_scan :
+  char_ops -> bool -> bool -> z list -> nat -> z list -> nat option ->
+  (nat * nat) option
+
+val v1_back :
+  char_ops -> bool -> bool -> z list -> nat -> z list -> nat -> nat
+
+val fuzzy_v1 :
+  char_ops -> scheme -> bool -> bool -> bool -> bool -> z list -> z list ->
+  bool -> mres res
+
+type ex_state = { ex_index : z; ex_pidx : nat; ex_bonus : z; ex_bestPos : 
+                  z; ex_bestBonus : z }
+
+val index_at : nat -> nat -> bool -> nat
+
+val exact_loop :
+  char_ops -> scheme -> nat -> bool -> bool -> bool -> bool -> z list -> z
+  list -> ex_state -> ex_state res
+
+val exact_match :
+  char_ops -> scheme -> bool -> bool -> bool -> bool -> bool -> z list -> z
+  list -> mres res
+
+val is_space_m : char_ops -> z -> bool
+
+val leading_ws : char_ops -> z list -> nat
+
+val trailing_ws : char_ops -> z list -> nat
+
+val cmp_at : char_ops -> bool -> bool -> z list -> nat -> z list -> bool res
+
+val prefix_match :
+  char_ops -> scheme -> bool -> bool -> z list -> z list -> mres res
+
+val suffix_match :
+  char_ops -> scheme -> bool -> bool -> z list -> z list -> mres res
+
+val eq_norm : char_ops -> bool -> z list -> nat -> z list -> bool res
+
+val equal_match :
+  char_ops -> scheme -> bool -> bool -> z list -> z list -> mres res
+
+val fold_v2 : char_ops -> scheme -> bool -> bool -> z -> z * z
+
+type p2 = { p2_T : z list; p2_B : z list; p2_H0 : z list; p2_C0 : z list;
+            p2_F : nat list; p2_pidx : nat; p2_lastIdx : nat;
+            p2_maxScore : z; p2_maxPos : nat }
+
+val phase2 :
+  char_ops -> scheme -> bool -> bool -> bool -> bool -> z list -> nat -> z ->
+  z list -> z -> z -> z -> bool -> p2 -> p2
+
+type mat = z option list
+
+val mget : mat -> z -> z res
+
+val mset : mat -> z -> z -> mat res
+
+val zget : z list -> z -> z res
+
+val p3_row :
+  bool -> bool -> z list -> z list -> mat -> mat -> z -> z -> z -> z -> nat
+  -> z -> bool -> z -> z -> (((mat * mat) * z) * z) res
+
+val p3_rows :
+  bool -> z list -> z list -> mat -> mat -> z -> z -> z -> nat -> nat list ->
+  z list -> nat -> z -> z -> (((mat * mat) * z) * z) res
+
+val p4 :
+  nat -> mat -> mat -> nat list -> z -> z -> nat -> nat -> nat -> z -> bool
+  -> nat list -> (nat list * z) res
+
+val put_row : mat -> z -> z list -> mat res
+
+val fuzzy_v2 :
+  char_ops -> scheme -> bool -> bool -> bool -> bool -> z list -> z list ->
+  bool -> z option -> mres res
+
+val tbl_find : z list list -> z -> z list option
+
+val ops_of : z list list -> char_ops
+
+val scheme_of : z -> scheme
+
+val v_mres : mres res -> val0
+
+type acall = { a_fn : z; a_cs : bool; a_nm : bool; a_fwd : bool;
+               a_bytes : bool; a_wp : bool; a_cap : z option; a_sc : 
+               scheme; a_text : z list; a_pat : z list; a_co : char_ops }
+
+val as_call : val0 -> acall
+
+val run_model : acall -> mres res
+
+val insert_nat : nat -> nat list -> nat list
+
+val sort_nat : nat list -> nat list
+
+val seq_from : nat -> nat -> nat list
+
+val check_answer : acall -> val0 -> z list
+
+val dispatch_algo : z -> val0 -> val0 option
 
 val nL : z
 
@@ -183,5 +532,7 @@ val as_session : val0 -> session
 val d_sessions : nat -> fs -> session list -> val0 list
 
 val d_spec_stored : nat -> fs -> str list -> val0
+
+val dispatch_history : z -> val0 -> val0 option
 
 val dispatch : z -> val0 -> val0
